@@ -158,6 +158,12 @@ impl Sim {
         }
     }
 
+    /// No catch-all listener for this case (the model then reports no events either).
+    pub fn no_events(&mut self) {
+        self.subscribe_all = false;
+        let _ = writeln!(self.trace, "OPT noevents");
+    }
+
     pub fn now_ns(&self) -> u128 {
         Instant::now().duration_since(self.t0).as_nanos()
     }
@@ -167,6 +173,7 @@ impl Sim {
         self.known_ids.clear();
         self.dead_case = false;
         self.ops_in_case = 0;
+        self.subscribe_all = true;
         self.t0 = Instant::now();
         let _ = writeln!(self.trace, "CASE {name}");
     }
@@ -519,6 +526,34 @@ impl Sim {
             Ok(obs) => self.record(&op, &obs),
             Err(_) => self.record_panic(&op),
         }
+    }
+
+    /// Encoder correspondence: the model must encode the structural dump of a message the
+    /// implementation emitted to exactly the implementation's bytes; then decode them back.
+    pub fn wire_check(&mut self, bytes: &[u8]) {
+        if self.dead_case {
+            return;
+        }
+        let mut buf = bytes;
+        let Ok(msg) = ChitchatMessage::deserialize(&mut buf) else {
+            return;
+        };
+        let dump = verif_dump_message(&msg);
+        let (_, delta_len) = reply_order_and_len(&dump);
+        // Re-serializing a decoded message is only meaningful when it is in the writer's normal
+        // form (otherwise the recorded length differs and Delta::serialize asserts; decoded deltas
+        // are never re-serialized by the library). The zstd answers come from the bytes the
+        // implementation's own writer produced.
+        let reser = catch_unwind(AssertUnwindSafe(|| msg.serialize_to_vec()));
+        if let Ok(b) = reser {
+            let tail = if delta_len > 0 && delta_len <= b.len() {
+                zc_table(&b[b.len() - delta_len..])
+            } else {
+                String::new()
+            };
+            self.record(&format!("ENCODE {dump}{tail}"), &hex(&b));
+        }
+        self.decode(bytes);
     }
 
     pub fn read(&mut self, n: usize, member: &ChitchatId, key: &str, prefix: &str) {
